@@ -138,3 +138,35 @@ check("C03", "PVM",
       note="The 60 s bound is the only wall-clock verdict (10^4 instructions take microseconds). Psi_I is not driven (fixed 50M gas). Go native fuzzing is not used (unseedable); the structured generator is seeded by VERIF_SEED.",
       shards=(8, 16), floors={"any": {"calls_DeBlobProgramCode": 3000, "calls_Psi_M": 3000, "calls_Psi_A": 3000, "calls_RefineInvoke": 3000, "calls_machine+invoke": 3000, "calls_SingleInitializer": 3000}},
       timeout=(1200, 7200))
+
+check("C06", "PVM",
+      rule="case = standard program blob with |o|,|w|,s,|a| from {0,1,4095,4096,4097,8191,8192,65535,65536,65537, random<70000, 2^24-1 (thorough)} and z from {0,1,15,16,17,255,65535 (thorough)}, random contents; SingleInitializer's page map (address, access, content of EVERY page, no extra page), registers and returned code compared with a 40-line model of GP A.7; every proper prefix of small valid blobs must be rejected. distinct_nontrivial = distinct (|o|,|w|,z,s,|a|) tuples + prefix seeds",
+      technique="reference-model monitor (GP A.7 layout model) over a size grid",
+      level_text="The complete page map produced by the initialiser is compared with an independent layout model on a boundary-biased size grid. Held = no divergence on what was explored.",
+      note="Layouts above 2^32 are unreachable with the 3-byte length fields (U5); trailing bytes after the code are not judged (U13).",
+      shards=(8, 16), floors={"any": {"layouts": 2000, "layouts_arg_ge_one_page": 500, "prefixes_rejected": 2000}})
+
+HC_NOTE = ("Host calls are invoked through the real omega tables (AccumulateOmegas incl. the wrapWithG variants, RefineOmegas) on contexts wired exactly like Psi_A wires them. The logical projection merges dictionary entries with the raw state-key pool, so moving an entry from the pool into a dictionary is not a change. "
+           "Registers after a PANIC exit are not judged (U6). Parameters: tiny.")
+
+check("C07", "PVM",
+      rule="case = one generated accumulation/refinement context (caller + 0..3 accounts with storage, preimages, lookups - some only in the raw pool -, privileges, queues; guest memory of 4 RW pages + 1 RO page) driven through 1..40 host calls (all 28 identifiers incl. log, arguments biased to the edges of the mapped ranges, lengths {0, small, 2^32, random 64-bit}, own/other/absent/2^64-1 service ids); after EVERY call the frame table is evaluated on pre/post snapshots of registers, gas, every guest page, the logical projection of X and Y and the inner-machine table: "
+           "only ω7 (+ω8 for query/invoke, none for log) may change; gas -10 (transfer -10-l); unreadable required input => PANIC; PANIC or error code => memory and context unchanged; memory changes only inside the destination range; Y changes only at checkpoint. Plus `ecalli id` programs for identifiers absent from the real table (27..99, 101..255, >255, sign-extended): ω7=WHAT, gas -10, nothing else. distinct_nontrivial = distinct contexts + distinct (id, table)",
+      technique="invariant monitor at the omega-table boundary (per-call frame table over pre/post snapshots)",
+      level_text="Every call of generated host-call sequences is checked against its register/memory/context frame; held = no frame violation on what was explored.",
+      note=HC_NOTE, shards=(8, 16), floors={"any": {"calls": 50000, "unknown_ids": 2000}})
+
+check("C08", "PVM",
+      rule="the C07 sequence driver with the ledger monitor: after every call the exact (math/big) sum of all balances in X plus the amounts of X's deferred transfers must not increase; balances change only in successful new/transfer/eject, by exactly the specified amount (creator -a_t and new account +a_t with a_t = 100+10*2+81+l, sender -amount with the transfer recorded as requested, caller +ejected balance and the account removed); success requires the caller to stay at or above its own threshold, CASH requires that it would not; amounts/lengths drawn around the balance, 2^32 and 2^64. "
+           "Plus Psi_A runs crediting 0..4 incoming transfers to a service whose code traps or halts. distinct_nontrivial = distinct contexts + credit cases",
+      technique="conservation monitor (big-integer token ledger) at the omega-table boundary + Psi_A result check",
+      level_text="A big-integer ledger is re-computed after every host call of generated sequences; held = conservation and exactness on what was explored.",
+      note=HC_NOTE, shards=(8, 16), floors={"any": {"ledger_new_ok": 500, "ledger_new_cash": 300, "ledger_transfer_ok": 500, "ledger_transfer_cash": 500, "ledger_eject_ok": 1, "credit_cases": 1000}})
+
+check("C09", "PVM",
+      rule="the C07 sequence driver with the footprint monitor: after every call, for every account in X, recorded items/octets must equal 2*|lookups|+|storage| and sum(81+z)+sum(34+|k|+|v|) recomputed from the dictionaries and the planted raw-pool entries still in the pool; an accepted write/solicit must leave threshold <= balance; info must report the big-integer threshold. "
+           "Plus an exhaustive grid for CalcThresholdBalance: items {0,1,2, 2^32/10-2..+2, 2^31, 2^32-2, 2^32-1} x octets {0,1,2^32,2^63 (+1), 2^64-1-d for d=0,3,..,111} x gratis offsets {0,1,2^63,2^64-2,2^64-1, raw-100, raw-1, raw, raw+1, raw+100}; points whose exact value exceeds 2^64-1 are counted, not judged (U7). distinct_nontrivial = distinct contexts + grid points",
+      technique="invariant monitor (recount from the actual containers, big-integer threshold) at the omega-table boundary + exhaustive threshold grid",
+      level_text="Footprint bookkeeping is recomputed from the containers after every host call and the threshold formula is checked on an exhaustive boundary grid; held = agreement on what was explored.",
+      note=HC_NOTE, shards=(8, 16), floors={"any": {"footprint_mutations_ok": 3000, "footprint_FULL": 100, "footprint_info_checked": 100, "threshold_points": 2000}},
+      exhaustive="threshold grid (11 item counts x 46 octet counts x 8-10 offsets)")
